@@ -230,7 +230,7 @@ class Env:
         reads = molgen.build_reads(self.hdr, self.ref, mol['chrom'], 'site', mol['frags'][0], tags=read_tags(mol, mol['frags'][0]))
         return self.CHICFragment(reads, assignment_radius=100000, umi_hamming_distance=0).get_site_location()[1]
 
-    def api_case(self, mol, max_n, name, out_bam, cap=None, hist_k=None, wp=None):
+    def api_case(self, mol, max_n, name, out_bam, cap=None, hist_k=None, wp=None, merge=False, crd=False):
         """-> list of (record name, exception name or None, site, associated fragments, fragments added so far).
         hist_k: history consensus -> add -> consensus on ONE molecule object: the writer is called after the first hist_k
         fragments and again after the remaining ones were added."""
@@ -247,12 +247,34 @@ class Env:
                     recs = m.deduplicate_majority(out_bam, label, max_N_span=max_n)
                     for r in recs:
                         out_bam.write(r)
+                elif wp in ('cb', 'cbkw'):   # write_pysam with a consensus_read_callback (with / without keyword arguments)
+                    seen = []
+
+                    def callback(reads, **kw):
+                        seen.append((len(reads), sorted(kw)))
+                    m.write_pysam(out_bam, consensus=True, no_source_reads=True, consensus_name=label, consensus_read_callback=callback,
+                                  consensus_read_callback_kwargs={'note': 1} if wp == 'cbkw' else None)
+                    assert len(seen) == 1, 'the harness callback was not called exactly once'
                 else:   # the other public entry: Molecule.write_pysam(consensus=True) writes the records (and the source reads) itself
                     m.write_pysam(out_bam, consensus=True, no_source_reads=(wp == 'nosrc'), consensus_name=label)
                 out.append((label, None, site, len(m), n_added))
             except Exception as ex:   # a crash of the code under test is an observation
                 out.append((label, type(ex).__name__, site, len(m), n_added))
-        for j, f in enumerate(frs[1:], start=1):
+        if hist_k is not None and merge:
+            # history through the other growth path: the remaining fragments form a second molecule that is merged in
+            for f in frs[1:hist_k]:
+                if not m.add_fragment(f):
+                    m._add_fragment(f)
+            consensus(name + '_pre', hist_k)
+            m2 = self.CHICMolecule(frs[hist_k], reference=self.fasta)
+            for f in frs[hist_k + 1:]:
+                if not m2.add_fragment(f):
+                    m2._add_fragment(f)
+            m.add_molecule(m2)
+            frs_rest = []
+        else:
+            frs_rest = frs[1:]
+        for j, f in enumerate(frs_rest, start=1):
             if hist_k is not None and j == hist_k:
                 consensus(name + '_pre', j)
             try:
@@ -262,6 +284,14 @@ class Env:
                 pass
         assert len(m) + m.overflow_fragments == len(frs) and (cap is not None or len(m) == len(frs))
         consensus(name, len(frs))
+        if crd:
+            # observation only: get_consensus_read() with its defaults (one record over spanStart..spanEnd from get_consensus();
+            # not the entry the property names, recorded as a NOTE)
+            try:
+                out_bam.write(m.get_consensus_read(out_bam, name + '_crd'))
+                out.append((name + '_crd', None, m.get_cut_site()[1], len(m), len(frs)))
+            except Exception as ex:
+                out.append((name + '_crd', type(ex).__name__, m.get_cut_site()[1], len(m), len(frs)))
         return out
 
     def cleanup(self):
@@ -280,7 +310,9 @@ def run_api(env, emit, items, tid0, tag):
             cap = item[2] if len(item) > 2 else None
             hist_k = item[3] if len(item) > 3 else None
             wp = item[4] if len(item) > 4 else None
-            results[k] = env.api_case(item[0], item[1], 'cons_%d' % k, out, cap, hist_k, wp)
+            merge = item[5] if len(item) > 5 else False
+            crd = item[6] if len(item) > 6 else False
+            results[k] = env.api_case(item[0], item[1], 'cons_%d' % k, out, cap, hist_k, wp, merge, crd)
     got = {}
     recs_all, unreadable = read_back(path, lambda name: True)
     for rec in recs_all:
@@ -294,7 +326,10 @@ def run_api(env, emit, items, tid0, tag):
         for label, raised, site, assoc, n_added in results[k]:
             pre = label.endswith('_pre')
             sub = dict(mol, frags=mol['frags'][:n_added]) if pre else mol
-            e = base_event(env.ref, sub, 'api' if hist_k is None or pre else 'api_hist', max_n, site, assoc, cap)
+            via = 'crd' if label.endswith('_crd') else ('api' if hist_k is None or pre else 'api_hist')
+            e = base_event(env.ref, sub, via, max_n, site, assoc, cap)
+            if len(item) > 5 and item[5] and not pre:
+                e['merge'] = True
             if hist_k is not None and not pre:
                 e['hist_k'] = hist_k
             if len(item) > 4 and item[4]:
@@ -396,8 +431,8 @@ def main():
                 mol = {'chrom': e['chrom'], 'frags': e['desc']['frags'], 'strand': e['strand'], 'sample': e['mol']['SM'],
                        'umi': e['mol']['RX'], 'bc': e['desc']['bc']}
                 cap = e.get('cap') or None
-                if e['via'] in ('api', 'api_hist'):
-                    run_api(env, emit, [(mol, None if e['maxN'] < 0 else e['maxN'], cap, e.get('hist_k'), e.get('wp'))], 1, 'replay')
+                if e['via'] in ('api', 'api_hist', 'crd'):
+                    run_api(env, emit, [(mol, None if e['maxN'] < 0 else e['maxN'], cap, e.get('hist_k'), e.get('wp'), e.get('merge', False))], 1, 'replay')
                 else:
                     run_cli(env, emit, [mol], e['via'] == 'cli_nosrc', e.get('with_ref', True), 1, 'replay', cap)
                 return
@@ -419,8 +454,10 @@ def main():
                 cap = rng.randint(1, n - 1) if n >= 2 and rng.random() < 0.35 else None
                 # history consensus -> add -> consensus on one object (uncapped molecules of >= 2 fragments)
                 hist_k = rng.randint(1, n - 1) if cap is None and n >= 2 and rng.random() < 0.5 else None
-                wp = rng.choice(['src', 'nosrc']) if rng.random() < 0.15 else None     # Molecule.write_pysam(consensus=True) entry
-                batch.append((mol, None if wp else rng.choice([None, None, 0, 1, 3, 10, 300]), cap, hist_k, wp))
+                wp = rng.choice(['src', 'nosrc', 'cb', 'cbkw']) if rng.random() < 0.2 else None     # Molecule.write_pysam(consensus=True) entry
+                merge = hist_k is not None and rng.random() < 0.5       # second half arrives through add_molecule
+                crd = wp is None and cap is None and rng.random() < 0.1
+                batch.append((mol, None if wp else rng.choice([None, None, 0, 1, 3, 10, 300]), cap, hist_k, wp, merge, crd))
             tid = run_api(env, emit, batch, tid, 'a')
             n_cli = 4 if tier == 'quick' else 60
             for k in range(n_cli):
